@@ -1060,7 +1060,7 @@ def rule_exact_fit(R):
                     continue
                 # the refusal edge: normalise to  E < 0
                 op = sj[1] if lab else {"Lt": "Ge", "Le": "Gt", "Gt": "Le", "Ge": "Lt"}[sj[1]]
-                a, c = _linear(sj[2]), _linear(sj[3])
+                a, c = _linear(roles.expand_getters_deep(f, sj[2])), _linear(roles.expand_getters_deep(f, sj[3]))
                 if a is None or c is None:
                     out.append(None)
                     continue
@@ -1107,6 +1107,20 @@ def rule_exact_fit(R):
                 out.append({k: v for k, v in e2.items() if v != 0} if okm else None)
         return out
 
+    # the write position: where push_bytes starts its copy (`self.buf[<pos>..]`), as a linear form -- `I` while the serializer
+    # keeps an index field, something else (`5 + body_len`) when the position is derived
+    xref = {"I": 1}
+    pbs = [b for b in f.bodies.values() if b.fn_name == "push_bytes" and (b.self_ty or "").split("<")[0].endswith("MqttSerializer")
+           and b.kind == "assoc_fn" and not f.in_fuzzing(b)]
+    for b in pbs:
+        for c in b.calls.values():
+            if c.bb in b.reachable and c.is_("IndexMut::index_mut", "index_mut") and len(c.args) == 2 \
+                    and chain(peel(b.operand_term(c.args[0])))[1][-1:] == ["buf"]:
+                rng = peel(b.operand_term(c.args[1]))
+                if rng[0] == "agg" and rng[4] and rng[4][0] == "start":
+                    x = _linear(roles.expand_getters_deep(f, rng[5][0]))
+                    if x is not None:
+                        xref = x
     for name in ("push_bytes", "push", "commit"):
         cand = [b for b in f.bodies.values() if b.fn_name == name and (b.self_ty or "").split("<")[0].endswith("MqttSerializer")
                 and b.kind == "assoc_fn" and not f.in_fuzzing(b)]
@@ -1119,10 +1133,15 @@ def rule_exact_fit(R):
             if e is None:
                 verdicts.append((False, "not a linear comparison"))
                 continue
-            rest = {k: v for k, v in e.items() if k not in ("L", "I")}
-            ok = e.get("L") == 1 and e.get("I") == -1 and len(rest) == 1 and list(rest.values())[0] == -1 and list(rest.keys())[0] != 1
+            # E + position must be  L - n
+            e2 = dict(e)
+            for k, v in xref.items():
+                e2[k] = e2.get(k, 0) + v
+            e2 = {k: v for k, v in e2.items() if v != 0}
+            rest = {k: v for k, v in e2.items() if k != "L"}
+            ok = e2.get("L") == 1 and len(rest) == 1 and list(rest.values())[0] == -1 and list(rest.keys())[0] != 1
             if name == "push":
-                ok = e.get("L") == 1 and e.get("I") == -1 and rest == {1: -1}
+                ok = e2.get("L") == 1 and rest == {1: -1}
             verdicts.append((ok, " + ".join("%s*%s" % (v, k) for k, v in sorted(e.items(), key=str)) + " < 0"))
         n += 1
         R.ob("fit/exact/%s" % name, len(verdicts) == 1 and verdicts[0][0],
